@@ -15,7 +15,8 @@ LEVEL = ("Static structural conditions: every ADT reachable through field types 
          "Settings::new_chain and everything it calls reads no ambient state (statics, clock, entropy, environment), so equal settings, "
          "chain id and RNG give an equal chain (R3); every field of a settings struct is read by the code that builds or runs the chain "
          "- no field is silently ignored after deserialisation (R4). Text round trip of floats and non-finite values are not decided."
-         " Added: no settings field is (de)serialised through a custom function (deserialize_with / serialize_with) (R1); the serialised value reaches the Zarr attribute untouched and the root group is written by new_trace only (R2); serde_json is built with float_roundtrip (R5, manifest).")
+         " Added: no settings field is (de)serialised through a custom function (deserialize_with / serialize_with) (R1); the serialised value reaches the Zarr attribute untouched and the root group is written by new_trace only (R2); serde_json is built with float_roundtrip (R5, manifest)."
+         " Added (round 5): the (sampler_name, adaptation_name) tag pairs of the presets are constants and pairwise distinct (R6).")
 EXPLANATION = ("ADT/impl/attribute facts from the type-checked crate (derive provenance from macro expansion spans), type-closure computation with "
                "generic substitution, value provenance of the settings reference in the controller MIR, who-may-call for ambient state.")
 TRUSTED = ["rustc nightly", "nutsfacts extractor", "rules/c19.py, rules/tys.py", "serde_derive: derived Serialize/Deserialize without attributes are mutual inverses through serde_json::Value"]
